@@ -79,6 +79,17 @@ def check_doc(src, plants, results):
             hay = out
         for pos, marker, run in plants:
             n = hay.count(marker)
+            if pos == "fence language":
+                # where the target prints the language of a code fence, the reserved characters of the target are escaped there too
+                if r.fmt in ("latex", "beamer", "memoir") and n:
+                    m = re.search(r"language=(" + re.escape(marker) + r"[^\n]*)\]\n", hay)
+                    val = m.group(1) if m else hay[hay.find(marker):hay.find(marker) + 60]
+                    rest = val
+                    for esc in (r"\&", r"\%", r"\#", r"\$", r"\_", r"\{", r"\}", r"\ensuremath{\sim}", r"\textasciitilde{}", r"\^{}", r"\textasciicircum{}", "$<$", "$>$"):
+                        rest = rest.replace(esc, "")
+                    if re.search(r"[&%#$_{}~^\\]", rest):
+                        bad.append(("unescaped:%s:fence language" % r.fmt, "%s: the language of a code fence is printed with unescaped reserved characters: source %r, output %r" % (r.fmt, run, val)))
+                continue
             if pos in VISIBLE_ONCE and n != 1 and not (r.fmt == "opml"):
                 bad.append(("text-%s:%s:%s" % ("lost" if n == 0 else "repeated", r.fmt, pos), "%s: text planted in %s appears %d times (marker %s)" % (r.fmt, pos, n, marker)))
                 continue
